@@ -244,11 +244,19 @@ func (c *Command) evaluate(ctx context.Context, positions <-chan *tak.Position, 
 		grp.Go(func() error {
 			var analyze func(p *entry)
 			if c.analysis == "dfpn" {
-				prover := prove.NewDFPN(&prove.DFPNConfig{
-					// Attacker: tak.White,
-					TableMem: 100 * 1 << 20,
-				})
+				// A solver settles on one attacker for its whole life, and its
+				// verdict is about that attacker. The label is about the side to
+				// move, so keep one solver per side.
+				provers := make(map[tak.Color]*prove.DFPNSolver)
 				analyze = func(e *entry) {
+					prover := provers[e.pos.ToMove()]
+					if prover == nil {
+						prover = prove.NewDFPN(&prove.DFPNConfig{
+							Attacker: e.pos.ToMove(),
+							TableMem: 100 * 1 << 20,
+						})
+						provers[e.pos.ToMove()] = prover
+					}
 					res, _ := prover.Prove(e.pos)
 					e.move = res.Move
 
